@@ -376,6 +376,8 @@ def run(pid, tier, seed):
                 chk.nontriv("strategy|%s|%d" % (sname, ci))
             if len(chk.samples) < 2:
                 chk.sample({"module": name, "stub": text[:600]})
+        from .. import funcdef_corr
+        funcdef_corr.kinds(chk, drv, pd, seed, "corr.C12.kind")
         for g, (case, toks) in zip(drv.ask_many(reqs), meta):
             mt = [t if isinstance(t, str) else tuple(t) for t in g[0]]
             it = [t if isinstance(t, str) else tuple(t) for t in toks]
